@@ -241,11 +241,24 @@ func Run(r *vf.Run, cfg Cfg) {
 	wg.Wait()
 
 	// ---- phase 2: histories at workload-chosen heights
+	var normal []*World
+	var zero *World
+	for _, w := range worlds {
+		if w.ZeroStakePeers {
+			zero = w
+		} else {
+			normal = append(normal, w)
+		}
+	}
+	if len(normal) == 0 {
+		r.Inconclusive("no regular world booted")
+		return
+	}
 	vf.Parallel(cfg.Hist, workers, func(i int) {
 		sub := rng.Sub(uint64(i))
-		w := worlds[i%len(worlds)]
-		if w.ZeroStakePeers && i%(4*len(worlds)) != i%len(worlds) {
-			w = worlds[(i/len(worlds))%(len(worlds)-1)] // only every 4th turn of the zero-stake world is used
+		w := normal[i%len(normal)]
+		if zero != nil && i%25 == 24 {
+			w = zero
 		}
 		runHistory(r, cfg, w, fmt.Sprintf("hist-%d", i), sub, NewVEngine(w), nil, false, startHeight(sub))
 	})
